@@ -183,13 +183,17 @@ CLAIMED = {
     ),
     "C10": dict(
         category="proof",
-        text="Closed theorem go_structure for an arbitrary carrier: every node of the result has the source node's name, type, "
-             "connections, ports with directions, resource names and types, and exactly the source's children in an order "
-             "consistent with the wiring. Preprocessing's additions (propagated additive/multiplicative resources, parameters) "
-             "are checked by the stream on the real compiled trees against the source (structure_ok).",
-        design_ref="DESIGN.md section 5 C10",
-        note="Trusted: Coq kernel; compile model tied by the stream; preprocessing stages modelled, not proved structure-preserving.",
-        technique="Coq structural induction on the traversal + structural comparison of real compiled trees with the source",
+        text="Closed theorems for the whole pipeline and the whole tree (SkeletonFacts): preprocess_skel - every preprocessing "
+             "stage, and so preprocess for whatever list of stages is generated, keeps at every node the name, type, "
+             "connections, repetition, the ports (names and directions, up to order), every source resource unchanged, adds "
+             "only additive/multiplicative resources under names the node did not define, only appends input parameters and "
+             "constraints, and keeps the children in order; go_shape (any carrier) - every node of the compiled tree is the "
+             "image of the routine it was compiled from, children matched by name in wiring order, at every depth; go_nodes - "
+             "with distinct child names the tree has exactly as many nodes as the source; compile_routine_whole_tree and "
+             "compile_routine_root_resources compose the two. The stream checks the same on the real compiled trees.",
+        design_ref="DESIGN.md section 5 C10, section 10.3",
+        note="Trusted: Coq kernel; preprocessing and compile models tied to the code by the stream (structure of real compiled trees vs the source).",
+        technique="Coq structural / fuel induction over the preprocessing stages and the traversal + structural comparison of real compiled trees with the source",
     ),
     "C01": dict(
         category="proof",
